@@ -444,7 +444,24 @@ for _q, _n, _cls, _params, _res, _thm in [
                  'result': _res, 'tie_theorem': _thm, 'effect': FILEUTILS_EFFECTS, 'translator': 'py2lean_c05',
                  'py': _q.split('.')[-1], 'method': _cls is not None, 'kind': 'function', 'raises': True})
 
+# boltons.strutils integer-list functions and shell quoting (round 3d, C14; extension module harness/py2lean_c14.py,
+# notes/SRCTIE.md section 1h).  A `str` is the list of its code points; string methods / f-strings / `str.format` /
+# `collections.deque` / `min` / `max` of a list are rewritten by the module's pre-pass into SPEC-DECLARED STRING
+# OPERATIONS (lean/BoltonsVerif/PyRtC14.lean).  Raising mode (ValueError / IndexError as values).
+_C14_GEN = 'strutils_c14'
+_C14 = [
+    {'module': 'boltons.strutils', 'qualname': 'format_int_list', 'lean_name': 'format_int_list',
+     'params': {'int_list': 'List Int', 'delim': 'Str', 'range_delim': 'Str', 'delim_space': 'Bool'},
+     'kind': 'function', 'result': 'Str', 'raises': True, 'tie_theorem': 'C14.src_format_int_list_eq_model'},
+    {'module': 'boltons.strutils', 'qualname': 'parse_int_list', 'lean_name': 'parse_int_list',
+     'params': {'range_string': 'Str', 'delim': 'Str', 'range_delim': 'Str'},
+     'kind': 'function', 'result': 'List Int', 'raises': True, 'tie_theorem': 'C14.src_parse_int_list_eq_model'},
+]
+for _sp in _C14:
+    _sp.update(ext='py2lean_c14', gen_file=_C14_GEN)
+
 SPECS = {
+    'C14': _C14,
     'C18': _MFR + _SB,
     'C13': _FB,
     'C01': _OMD,
